@@ -122,6 +122,49 @@ def snap(lst, names):
     return (lst.index, lst.time, lst.step, [getattr(lst, n)._data.tobytes() for n in names])
 
 
+def access_keys(lst, names):
+    """The keys through which every table is read after EVERY action, fixed once per listing and re-used
+    on the same object before and after navigating: up to three rows (first, middle, last) by index, by
+    row name and -- where the table accepts it -- by the row name with its parts REVERSED."""
+    keys = {}
+    for nme in names:
+        t = getattr(lst, nme)
+        ks = []
+        for r in (sorted(set([0, t.num_rows // 2, t.num_rows - 1])) if t.num_rows else []):
+            rn = t.row_name[r]
+            ks += [r, rn]
+            if isinstance(rn, tuple) and len(rn) > 1 and t.allow_reverse_keys: ks.append(rn[::-1])
+        keys[nme] = ks
+    return keys
+
+
+def access_view(lst, names, keys):
+    """What the public access paths of the tables show: per table (reached as the attribute lst.<name>)
+    the bytes of every column table[col] and the row dictionaries table[i], table[name], table[reversed name]."""
+    import numpy as np
+    out = []
+    for nme in names:
+        t = getattr(lst, nme)
+        cols = [np.ascontiguousarray(t[c]).tobytes() for c in t.column_name]
+        rows = []
+        for k in keys[nme]:
+            d = t[k]
+            rows.append(None if d is None else (repr(d.get('key')), np.array([d[c] for c in t.column_name], dtype=float).tobytes()))
+        out.append((cols, rows))
+    return out
+
+
+def view_difference(names, keys, a, b, lst):
+    """first access path on which two access_views differ (None if equal)"""
+    for nme, (ca, ra), (cb, rb) in zip(names, a, b):
+        t = getattr(lst, nme)
+        for c, x, y in zip(t.column_name, ca, cb):
+            if x != y: return '%s[%r] (column)' % (nme, c)
+        for k, x, y in zip(keys[nme], ra, rb):
+            if x != y: return '%s[%r] (row)' % (nme, k)
+    return None
+
+
 def dig(b):
     return int.from_bytes(hashlib.blake2b(b, digest_size=5).digest(), 'big')
 
@@ -529,10 +572,14 @@ def _run_job(pl, res):
         res['skipped'] = 'steps/times are not numbers'; return res
     names = ab.names
     # fresh reference states: a new reader per index, positioned directly
-    fresh = []
+    # They are opened BEFORE any navigated object and stay alive (and open) to the end of the job; what they show
+    # through every public access path is recorded now and must still be shown at the end of every sequence.
+    fresh, refs, fresh_view = [], [], []
+    akeys = None
     for i in range(ab.n):
         l = open_listing(path, skip); l.index = i
-        fresh.append(snap(l, names)); l.close()
+        if akeys is None: akeys = access_keys(l, names)
+        fresh.append(snap(l, names)); fresh_view.append(access_view(l, names, akeys)); refs.append(l)
     l0 = open_listing(path, skip)
     sels = nav_selections(l0, names, ab.sim)
     mixed, unmatched = nav_unmatched_selections(l0, names, pl['thorough'])
@@ -564,6 +611,7 @@ def _run_job(pl, res):
     def fail(key, seq, upto, observed, required):
         if len(res['failures']) < 10:
             inp = dict(pl['inp']); inp['ops'] = [op_json(o, sels) for o in seq[:upto + 1]]
+            if live['on']: inp['other_live_listings'] = 'a second listing of the same file%s, opened after the navigated one' % (' and a listing of %s' % '/'.join(pl['other_path'].split(os.sep)[-4:]) if pl.get('other_path') else '')
             res['failures'].append({'key': key, 'input': inp, 'observed': observed, 'required': required})
 
     def same_as_fresh(lst):
@@ -575,13 +623,38 @@ def _run_job(pl, res):
         for nme, fb in zip(names, f[3]):
             if getattr(lst, nme)._data.tobytes() != fb:
                 return 'table %s differs from a fresh listing at index %d' % (nme, i)
+        why = view_difference(names, akeys, access_view(lst, names, akeys), fresh_view[int(i)], lst)
+        if why: return '%s differs from what a fresh listing at index %d shows through the same access path' % (why, i)
         return None
+
+    live = {'on': False}
+
+    def unchanged(l, sn, vw):
+        """a listing nobody navigated still shows what it showed"""
+        s2 = snap(l, names_of[id(l)])
+        if s2[:3] != sn[:3] or s2[3] != sn[3]: return 'index/time/step or a table array'
+        return view_difference(names_of[id(l)], keys_of[id(l)], access_view(l, names_of[id(l)], keys_of[id(l)]), vw, l)
+    names_of = {id(l): names for l in refs}
+    keys_of = {id(l): akeys for l in refs}
 
     impl_lines = []
     nops = 0
     opkinds = {}
-    for seq in seqs:
+    for si_, seq in enumerate(seqs):
         lst = open_listing(path, skip)
+        # other live objects: in the long sequences, in every 8th short one and in replays a second listing of the SAME
+        # file (positioned at the last result set) and a listing of ANOTHER file are opened AFTER the navigated object
+        # and watched: navigating `lst` must not change them, and they must not change what `lst` shows
+        live['on'] = (len(seq) > 4 or si_ % 8 == 3 or pl.get('sequences') is not None)
+        watched = []
+        if live['on']:
+            late = open_listing(path, skip); late.index = ab.n - 1
+            names_of[id(late)] = names; keys_of[id(late)] = akeys
+            watched.append((late, snap(late, names), access_view(late, names, akeys), 'the second listing of the same file'))
+            if pl.get('other_path'):
+                oth = open_listing(pl['other_path'])
+                on = tables_of(oth); names_of[id(oth)] = on; keys_of[id(oth)] = access_keys(oth, on)
+                watched.append((oth, snap(oth, on), access_view(oth, on, keys_of[id(oth)]), 'the listing of another file'))
         line = []
         for k, op in enumerate(seq):
             before = int(lst.index)
@@ -627,6 +700,17 @@ def _run_job(pl, res):
             elif op[0] in ('history', 'history0'):
                 if out != '-': fail('history:raises', seq, k, 'history raised %s' % out, 'no exception')
                 elif now != before: fail('history:moved', seq, k, 'history() at index %d left the listing at index %r' % (before, lst.index), 'extracting a history does not move the listing')
+            for (w, wsn, wvw, what) in watched:
+                d = unchanged(w, wsn, wvw)
+                if d: fail('nav:other-listing-changed', seq, k, '%s, which nobody navigated, no longer shows what it showed (%s)' % (what, d), 'navigating one listing does not change another')
+        # the references opened before the navigated object still show what they showed
+        for i, r in enumerate(refs):
+            d = unchanged(r, fresh[i], fresh_view[i])
+            if d:
+                fail('nav:other-listing-changed', seq, len(seq) - 1, 'the reference listing positioned at index %d before the navigated one was opened no longer shows what it showed (%s)' % (i, d), 'navigating one listing does not change another')
+                break
+        for (w, _, _, _) in watched:
+            names_of.pop(id(w), None); keys_of.pop(id(w), None); w.close()
         lst.close()
         impl_lines.append(' '.join(line))
     # the abstract listing as a model case line
@@ -757,6 +841,17 @@ def call_worker(ctx, payload, timeout):
 # the check
 
 
+OTHER_FILES = ('tests/listing/TOUGH2-MP/1/OUTPUT_DATA', 'tests/listing/TOUGH2-MP/7/OUTPUT_DATA')
+
+
+def other_listing(repo, rel):
+    """a small listing of ANOTHER shipped file (with tables of the same names) that is kept alive next to the
+    navigated one in some sequences; None if it is not there"""
+    for o in OTHER_FILES:
+        if o != rel and os.path.exists(os.path.join(repo, o)): return os.path.join(repo, o)
+    return None
+
+
 def plan_jobs(ctx, info, tmpdir, work=None):
     jobs = []
     for rel, d in sorted(info.items()):
@@ -779,6 +874,7 @@ def plan_jobs(ctx, info, tmpdir, work=None):
     for j in jobs:
         j['path'] = materialise(ctx.repo, j['inp'], tmpdir)
         j['skip_tables'] = j['inp'].get('skip_tables')
+        j['other_path'] = other_listing(ctx.repo, j['inp']['file'])
         j['seed'] = ctx.rng.randrange(1 << 30)
         j['work'] = work
         j['thorough'] = ctx.thorough
@@ -933,7 +1029,7 @@ def replay(ctx, data):
             print('replay:', r['text'])
             return r['differs']
         pl = {'fn': 'run_job', 'path': path, 'label': 'replay', 'inp': {k: v for k, v in inp.items() if k != 'ops'}, 'skip_tables': inp.get('skip_tables'),
-              'seed': 0, 'thorough': False, 'work': 1, 'tmpdir': tmpdir, 'sequences': [inp.get('ops') or []], 'probe_nonuniform': False}
+              'seed': 0, 'thorough': False, 'work': 1, 'tmpdir': tmpdir, 'other_path': other_listing(ctx.repo, inp['file']), 'sequences': [inp.get('ops') or []], 'probe_nonuniform': False}
         try: r = call_worker(ctx, pl, 300)
         except subprocess.TimeoutExpired:
             print('replay: did not finish within 300 s'); return True
